@@ -120,4 +120,37 @@ theorem loop_cons_ret {F : St → V → Nat → R} {it : V} {rest : List V} {i :
     (h : F st it i = .ret st' v) : loop F (it :: rest) i st = .ret st' v := by
   simp only [loop, h]
 
+/-! ## A loop whose body keeps an invariant of the environment
+
+`iter step l i s` is the state after running `step` over `l` with indices `i, i+1, …`; if every
+iteration of the interpreted body ends normally (or with `continue`) and maps the invariant `P E s`
+to `P E' (step a i s)`, the interpreted loop ends normally in a state satisfying `P E' (iter …)`. -/
+
+def iter {α σ : Type} (step : α → Nat → σ → σ) : List α → Nat → σ → σ
+  | [], _, s => s
+  | a :: l, i, s => iter step l (i + 1) (step a i s)
+
+theorem loop_inv {α σ : Type} (F : St → V → Nat → R) (P : Env → σ → Prop) (step : α → Nat → σ → σ) (toV : α → V)
+    (hstep : ∀ (E : Env) (s : σ) (a : α) (i : Nat) (o : Str), P E s →
+      ∃ E', P E' (step a i s) ∧
+        (F { env := E, out := o } (toV a) i = .norm { env := E', out := o } ∨
+         F { env := E, out := o } (toV a) i = .cont { env := E', out := o })) :
+    ∀ (l : List α) (i : Nat) (E : Env) (s : σ) (o : Str), P E s →
+      ∃ E', loop F (l.map toV) i { env := E, out := o } = .norm { env := E', out := o } ∧ P E' (iter step l i s) := by
+  intro l
+  induction l with
+  | nil => intro i E s o h; exact ⟨E, rfl, h⟩
+  | cons a l ih =>
+    intro i E s o h
+    obtain ⟨E1, h1, e | e⟩ := hstep E s a i o h
+    · rw [List.map_cons, loop_cons_norm e]; exact ih (i + 1) E1 _ o h1
+    · rw [List.map_cons, loop_cons_cont e]; exact ih (i + 1) E1 _ o h1
+
+theorem andThen_assoc (r : R) (f g : St → R) : (r.andThen f).andThen g = r.andThen (fun st => (f st).andThen g) := by
+  cases r <;> rfl
+
+theorem execSs_cons2 (c : Ctx) (s1 s2 : S) (rest : Ss) (st : St) :
+    execSs c (.cons s1 (.cons s2 rest)) st = (execSs c (.cons s1 (.cons s2 .nil)) st).andThen (fun st' => execSs c rest st') := by
+  simp only [execSs_cons, execSs_nil, andThen_assoc, andThen_norm]
+
 end VaxisModel.Lemmas.KeyBodyEval
